@@ -15,10 +15,12 @@ arithmetic peculiarities of the engine that matter for these helpers are part of
 (`emul`, `ediv`: a zero left operand gives zero whatever the right operand, so
 `(x > 0) * num / den` is 0 and not NaN at x ≤ 0; `bioMin`/`bioMax` branch on `<=` / `>`).
 
-Two places model the *documented* behaviour, not the code as it stands (known findings
-FC17a / FC17b, see known_findings.d/C17.json): `pwVars` for exactly two thresholds (the code
-returns the single variable twice, or raises TypeError with an open end) and
-`pwAsVariable` (the code multiplies β_i by the variable of interval i-1).  For three or more
+`pwVars` (one variable per pair of consecutive thresholds) and `pwAsVariable` (β_i times the
+variable of interval i) are what the code computes since the fixes of FC17a (two thresholds:
+the single variable used to be returned twice) and FC17b (β_i used to multiply the variable of
+interval i-1); `pwVarsAsCoded` / `pwAsVariableAsCoded` keep the former behaviour for the two
+theorems that document those findings.  The expression TREES the helpers return are modelled in
+Model/HelpersBuild.lean; this file gives their values in closed form.  For three or more
 thresholds `pwVars` is exactly what the code computes.  Core Lean only.
 -/
 import Model.Num
@@ -72,6 +74,7 @@ inductive PwErr where
   | innerNone        -- BiogemeError 'only the first and the last thresholds can be None'
   | indexError       -- a single numeric threshold: IndexError
   | badBetas         -- BiogemeError: wrong number of parameters
+  | emptySum         -- BiogemeError 'The argument of bioMultSum cannot be empty' (as_variable, one interval)
 deriving Repr, DecidableEq
 
 def dropLast {β : Type} : List β → List β
@@ -94,6 +97,18 @@ def pwFormulaCheck (ths : List (Option α)) (nBetas : Nat) : Option PwErr :=
   else if (dropLast ths.tail).any Option.isNone then some .innerNone
   else if nBetas + 1 != ths.length then some .badBetas
   else pwCheck ths
+
+/-- the checks of `piecewise_as_variable` (`nBetas = some n`: n parameters given; `none`: created by
+    the helper, K − 2 of them): threshold tests, number of parameters when given (K − 2), the checks
+    of `piecewise_variables`, and finally `bioMultSum` refuses an empty list of terms — a single
+    interval (K = 2) cannot be written as a transformed variable -/
+def pwAsVariableCheck (ths : List (Option α)) (nBetas : Option Nat) : Option PwErr :=
+  if ths.all Option.isNone then some .allNone
+  else if (dropLast ths.tail).any Option.isNone then some .innerNone
+  else if (match nBetas with | some n => n + 2 != ths.length | none => false) then some .badBetas
+  else match pwCheck ths with
+    | some e => some e
+    | none => if ths.length == 2 then some .emptySum else none
 
 def dot (βs vs : List α) : α := Num.sum (List.zipWith (fun b v => b * v) βs vs)
 
@@ -191,6 +206,18 @@ def logisticcdf (x mu s : α) : α := 1.0 / (1.0 + Num.exp (ediv (-(x - mu)) s))
 /-- `loglikelihoodregression(meas, model, sigma)` -/
 def loglikReg (y m s : α) : α :=
   -(powN (ediv (y - m) s) 2) / 2 - Num.log (powN s 2) / 2 - 0.9189385332
+
+/-- `likelihoodregression(meas, model, sigma)` = `exp` of the log likelihood -/
+def likReg (y m s : α) : α := Num.exp (loglikReg y m s)
+
+/-! ### argument checks of the density helpers (made when the values are known while the formula is built)
+
+`true` = the helper raises `ValueError` -/
+
+def scaleCheck (s : α) : Bool := Num.le s 0                      -- normalpdf, lognormalpdf, logisticcdf: s <= 0
+def argCheck (x : α) : Bool := Num.le x 0                        -- lognormalpdf with a literal argument: x <= 0
+def uniformCheck (a b : α) : Bool := Num.lt b a                  -- a > b   (a = b passes)
+def triCheck (a b c : α) : Bool := Num.le c a || Num.le b c      -- c <= a or c >= b
 
 /-! ## segmentation -/
 
